@@ -712,6 +712,10 @@ const sampleCalls = 400
 // verdict is asked of the Lean judge after the run).
 func Accept(cop core.Op, impl, model string) bool {
 	o := cop.(*Op)
+	if o.Kind == "trygc" && impl == "ok" {
+		// the Model adds whether the pass ran (visible in what is read afterwards, not in this answer)
+		return model == "ok ran" || model == "ok skipped"
+	}
 	if o.Kind != "keys" || !strings.HasPrefix(impl, "sample ") || !strings.HasPrefix(model, "keys ") {
 		return impl == model
 	}
